@@ -12,7 +12,7 @@ from vlib import *
 
 PID = "C18"
 META = {
-    "level": "proof+differential",
+    "level": "proof",
     "technique": "runtime differential (deep structural fingerprint + re-execution) over all public tape transforms; Coq heap model of "
                  "QuantumScript aliasing with induction proofs and vm_compute correspondence; static AST alias scan with allow-list",
     "design_ref": "DESIGN.md §3 C18 (PARTIAL: most of the property is runtime aliasing behaviour)",
